@@ -1716,6 +1716,11 @@ fn replay(r: &Value) -> ! {
             res.attempts, res.init_combos, res.fin_combos, res.covered, res.rounds_hist
         );
         found = res.causes;
+    } else if r["part"] == "mixed-depth" {
+        let g = |k: &str| r[k].as_u64().unwrap_or(0) as usize;
+        if let Some(v) = mixed_depth_case(g("da"), g("db"), g("only_a"), g("only_b"), g("both")) {
+            found.entry(v.sig).or_insert(v.detail);
+        }
     } else if r["part"] == "hash-sync" {
         let depth = r["depth"].as_u64().unwrap_or(0) as usize;
         let (ha, hb) = (r["ha"].as_str().unwrap_or(""), r["hb"].as_str().unwrap_or(""));
@@ -1823,6 +1828,56 @@ fn apply_hop(sim: &mut MultiNodeSimulation, node: usize, hop: &str) {
 
 /// Returns (violations, evaluated). `pre`: 0 nothing delivered, 1 node1's deltas reached node0 (node0's were lost),
 /// 2 the reverse. Then ONE digest-driven exchange with a limit that cannot truncate.
+/// Two replicas configured with DIFFERENT merkle depths (StateDigest::divergent_buckets handles digests of different
+/// sizes): node 0 alone holds `only_a` keys, node 1 alone `only_b` keys, `both` keys exist on both sides with different
+/// values. After ONE exchange (the per-round limit does not truncate) every key must hold the merge on both sides.
+/// Digest equality is not demanded here: digests of different depths are not comparable by construction.
+fn mixed_depth_case(da: usize, db: usize, only_a: usize, only_b: usize, both: usize) -> Option<Viol> {
+    use redis_sim::redis::Command;
+    let mut sim = MultiNodeSimulation::new(2, 0);
+    sim.nodes[0].anti_entropy.config.merkle_tree_depth = da;
+    sim.nodes[1].anti_entropy.config.merkle_tree_depth = db;
+    for n in 0..2 {
+        sim.nodes[n].anti_entropy.config.max_keys_per_sync = 100_000;
+    }
+    for i in 0..only_a {
+        sim.execute(0, 0, Command::set(format!("a-{i}"), redis_sim::redis::SDS::from_str("va")));
+    }
+    for i in 0..only_b {
+        sim.execute(1, 1, Command::set(format!("b-{i}"), redis_sim::redis::SDS::from_str("vb")));
+    }
+    for i in 0..both {
+        sim.execute(0, 0, Command::set(format!("c-{i}"), redis_sim::redis::SDS::from_str("from0")));
+        sim.execute(1, 1, Command::set(format!("c-{i}"), redis_sim::redis::SDS::from_str("from1")));
+    }
+    let prior: Vec<BTreeMap<String, ReplicatedValue>> = (0..2).map(|n| sim.nodes[n].replica_state.replicated_keys.iter().map(|(k, v)| (k.clone(), v.clone())).collect()).collect();
+    sim.run_anti_entropy_sync(0, 1);
+    let keys: BTreeSet<String> = prior[0].keys().chain(prior[1].keys()).cloned().collect();
+    for k in &keys {
+        let want = match (prior[0].get(k), prior[1].get(k)) {
+            (Some(a), Some(b)) => a.merge(b),
+            (Some(a), None) => a.clone(),
+            (None, Some(b)) => b.clone(),
+            _ => continue,
+        };
+        for n in 0..2 {
+            let have = sim.nodes[n].replica_state.replicated_keys.get(k);
+            let same = have.map(|h| vh::persist_kit::client_view(h) == vh::persist_kit::client_view(&want) && h.timestamp.time == want.timestamp.time).unwrap_or(false);
+            if !same {
+                return Some(Viol {
+                    sig: "mixed-depth sync: one exchange leaves a key unmerged".to_string(),
+                    detail: format!(
+                        "node0 merkle depth {da}, node1 depth {db}; node0 alone holds {only_a} keys, node1 alone {only_b}, {both} keys differ; after one run_anti_entropy_sync (limit 100000) node{n} holds {:?} for key {k}, the merge of both sides is {}",
+                        have.map(vh::persist_kit::project), vh::persist_kit::project(&want)
+                    ),
+                    replay: json!({"part": "mixed-depth", "da": da, "db": db, "only_a": only_a, "only_b": only_b, "both": both}),
+                });
+            }
+        }
+    }
+    None
+}
+
 fn hash_sync_case(depth: usize, ha: &str, hb: &str, pre: usize) -> (Vec<Viol>, bool) {
     let mut sim = MultiNodeSimulation::new(2, 0);
     for n in 0..2 {
@@ -2092,6 +2147,21 @@ fn main() {
             }
         }
     }
+    // ---- (d) replicas with different merkle depths
+    let mixed_items: Vec<(usize, usize, usize, usize, usize)> = [(8usize, 4usize), (4, 8), (8, 0), (0, 8), (1, 8), (8, 1), (2, 3), (12, 8)]
+        .iter()
+        .flat_map(|(da, db)| [(40usize, 0usize, 0usize), (0, 40, 0), (30, 10, 5), (3, 3, 40), (1, 0, 0), (0, 1, 0)].into_iter().map(move |(a, b, c)| (*da, *db, a, b, c)))
+        .collect();
+    let mixed_res = par::par_map(&mixed_items, |_, (da, db, a, b, c)| mixed_depth_case(*da, *db, *a, *b, *c));
+    {
+        let mut seen = BTreeSet::new();
+        for v in mixed_res.iter().flatten() {
+            if seen.insert(v.sig.clone()) {
+                rep.violation(v.sig.clone(), v.detail.clone(), v.replay.clone());
+            }
+        }
+    }
+    let mixed_depth_cases = mixed_items.len() as u64;
     let t_sync = rep.elapsed_s() - t1;
     let mut sync_runs = 0u64;
     let mut sync_nontrivial = 0u64;
@@ -2205,6 +2275,8 @@ fn main() {
         "sync: two nodes, SET / SET EX / DEL on 3 keys, no gossip, no concurrent writes during the sync rounds; only the replicated state (not the executor keyspace) is compared".to_string(),
     ];
     let mut coverage = coverage;
+    coverage["sync_between_replicas_of_different_merkle_depth"] = json!({"cases": mixed_depth_cases,
+        "rule": "two replicas with different merkle_tree_depth ((8,4) (4,8) (8,0) (0,8) (1,8) (8,1) (2,3) (12,8)) x six key distributions (keys on one side only, on both with different values, a single key); after ONE run_anti_entropy_sync with a non-truncating limit every key holds the merge on both sides. Digest equality is not judged here: digests of different depths differ by construction"});
     coverage["hash_sync_after_one_sided_delivery"] = json!({"cases": hash_items.len(), "cases_with_a_divergent_pair_exchanged": hash_sync_evaluated,
         "rule": "key h: each node does one of [nothing, HSET f, HSET g, HSET f + HDEL f, HSET f + HSET g, SET, SET + DEL] through its real ShardReplicaState; before the exchange nothing / only node1's deltas / only node0's deltas were delivered; merkle depth 0 and 8; then ONE run_anti_entropy_sync with a non-truncating limit: both sides must hold a merge of the two prior values"});
     rep.finish(coverage, assumptions);
